@@ -41,10 +41,19 @@ def cmdLex (s : Array Nat) : String :=
   | .ok ts => "ok " ++ ";".intercalate (ts.map fun t => showTT t.tt ++ "=" ++ showText t.val)
   | .error e => "err " ++ e.name
 
+/-- statement boundaries as token counts, then the `split()` strings: `ok n1 n2 … | hex ; hex ; …` -/
+def cmdSplit (s : Array Nat) : String :=
+  match lexSplit s with
+  | .error e => "err " ++ e.name
+  | .ok sts =>
+    "ok " ++ " ".intercalate (sts.map fun st => toString st.length) ++ " | " ++
+      " ; ".intercalate (sts.map fun st => showText (pyStrip (stmtText st)))
+
 def handle (line : String) : String :=
   match (line.trimRight.splitOn " ") with
   | "re" :: rest => cmdRe (parseText rest)
   | "lex" :: rest => cmdLex (parseText rest)
+  | "split" :: rest => cmdSplit (parseText rest)
   | _ => "bad-request"
 
 partial def loop (h : IO.FS.Stream) (out : IO.FS.Stream) : IO Unit := do
